@@ -13,6 +13,7 @@ import GraphiqModel.Proofs.LCTableaux
 import GraphiqModel.Proofs.StateToGraphTotal
 import GraphiqModel.Proofs.StateToGraphGauge
 import GraphiqModel.Proofs.InvTotal
+import GraphiqModel.Proofs.InvClifford
 namespace Graphiq.LC
 open Graphiq PRow Tab Graphiq.TabSpec
 
@@ -139,5 +140,45 @@ theorem lcCheckStates_total (t1 t2 : STab) (hn1 : 0 < t1.n) (hn : t1.n = t2.n) (
         hsame
       rw [if_pos rfl, hsame']
       rfl
+
+/-- the same when the second argument of `lc_check` is a graph: total and right -/
+theorem lcCheckStateGraph_total (t1 : STab) (g2 : BMat) (hn1 : 0 < t1.n) (hr : g2.r = t1.n) (hs2 : Simple g2.r g2.f)
+    (g1 : t1.Good) (i1 : t1.Indep) (validate : Bool) :
+    lcCheckStateGraph t1 g2 validate = .ok (false, []) ∨
+      ∃ total, lcCheckStateGraph t1 g2 validate = .ok (true, total) ∧
+        STab.SpanEq (t1.runCircuit total) (graphSTab g2.r g2.f) := by
+  obtain ⟨a1, G1, e1⟩ := stateToGraph_complete t1 hn1 g1 i1
+  have hr1 := stateToGraphWith_r _ t1 a1 G1 e1
+  obtain ⟨wf1, s1, sym1, irr1⟩ := stateToGraphWith_sound S2G.gf2InvF t1 g1.real a1 G1 e1
+  unfold lcCheckStateGraph
+  rw [e1]
+  simp only []
+  cases hc : converterGateListR a1 g2 with
+  | error e => exact Or.inl rfl
+  | ok r =>
+    obtain ⟨L, flag⟩ := r
+    right
+    have hL : lcCheckR a1 g2 false = .ok (true, L) := by
+      unfold lcCheckR
+      rw [hc]
+      rfl
+    have himg := lc_gates_image a1 g2 (by rw [hr1, hr]) (by rw [hr1]; exact ⟨sym1, irr1⟩) hs2 false L hL
+    rw [hr1] at himg
+    have i1' : CircImage t1.n G1 t1 (graphSTab t1.n a1.f) :=
+      (circImage_runCircuit t1 G1 wf1).congr (STab.SpanEq.refl t1) s1
+    have itot := circImage_comp i1' himg
+    have key : STab.SpanEq (t1.runCircuit (G1 ++ L.map toGate)) (graphSTab g2.r g2.f) := by
+      rw [hr]
+      exact circImage_unique (circImage_runCircuit t1 _ itot.wf) itot
+    refine ⟨G1 ++ L.map toGate, ?_, key⟩
+    simp only []
+    cases validate
+    · rfl
+    · have hgood := (tracks_runCircuit t1 g1 _ itot.wf).good
+      have hind := indep_runCircuit t1 i1 _ itot.wf
+      have hgG := graphSTab_good g2.r g2.f hs2.1
+      have hiG := STab.graphSTab_indep g2.r g2.f
+      have hsame := sameStabilizerState_of_spanEq _ _ hgood hgG hind hiG key
+      rw [if_pos rfl, hsame]
 
 end Graphiq.LC
